@@ -1,6 +1,9 @@
 package models
 
 import (
+	"math/bits"
+
+	"github.com/btcsuite/btcd/btcutil/v2"
 	"github.com/lightningnetwork/lnd/fn/v2"
 	"github.com/lightningnetwork/lnd/lnwire"
 	"github.com/lightningnetwork/lnd/routing/route"
@@ -9,7 +12,32 @@ import (
 const (
 	// feeRateParts is the total number of parts used to express fee rates.
 	feeRateParts = 1e6
+
+	// maxFee is the value that a computed fee saturates at: the total
+	// supply. No HTLC can carry more, and callers can still add the fee to
+	// an amount or convert it to an int64 without wrapping around.
+	maxFee = lnwire.MilliSatoshi(btcutil.MaxSatoshi * 1000)
 )
+
+// computeFee returns base + amt*rate/feeRateParts as specified in BOLT07. The
+// fee rate is a 32-bit value that is set by the remote node, so the product
+// doesn't necessarily fit into 64 bits. It is computed in full and the result
+// saturates at maxFee rather than wrapping around to a fee that is too low.
+func computeFee(base, rate, amt lnwire.MilliSatoshi) lnwire.MilliSatoshi {
+	hi, lo := bits.Mul64(uint64(amt), uint64(rate))
+	if hi >= feeRateParts {
+		return maxFee
+	}
+
+	propFee, _ := bits.Div64(hi, lo, feeRateParts)
+
+	fee, carry := bits.Add64(uint64(base), propFee, 0)
+	if carry != 0 || fee > uint64(maxFee) {
+		return maxFee
+	}
+
+	return lnwire.MilliSatoshi(fee)
+}
 
 // CachedEdgePolicy is a struct that only caches the information of a
 // ChannelEdgePolicy that we actually use for pathfinding and therefore need to
@@ -74,7 +102,7 @@ type CachedEdgePolicy struct {
 func (c *CachedEdgePolicy) ComputeFee(
 	amt lnwire.MilliSatoshi) lnwire.MilliSatoshi {
 
-	return c.FeeBaseMSat + (amt*c.FeeProportionalMillionths)/feeRateParts
+	return computeFee(c.FeeBaseMSat, c.FeeProportionalMillionths, amt)
 }
 
 // NewCachedPolicy turns a full policy into a minimal one that can be cached.
